@@ -851,7 +851,9 @@ pub fn scenarios(resizes: bool) -> Vec<Vec<ScOp>> {
 }
 
 /// one schedule: `variant` 0 = every callback succeeds, 1 = `Manager::recycle` fails,
-/// 2 = one pre_recycle and one post_recycle hook, all succeeding
+/// 2 = one pre_recycle and one post_recycle hook, all succeeding, 3 = asynchronous callbacks
+/// suspend first and every suspended get() (in a callback or waiting for a slot) is either
+/// resumed or abandoned
 fn run_schedule(ops: &[ScOp], variant: usize, path: &[usize], budget: usize, resizes: bool) -> (TraceOut, Vec<usize>, Vec<usize>) {
     let cfg = Cfg {
         max: 2,
@@ -897,25 +899,38 @@ fn run_schedule(ops: &[ScOp], variant: usize, path: &[usize], budget: usize, res
         let enabled: Vec<(usize, Outcome)> = mine
             .iter()
             .copied()
-            .filter_map(|i| {
+            .flat_map(|i| {
                 let op = w.sched.op(i);
                 if op.done {
-                    return None;
+                    return vec![];
                 }
                 let en = w.enabled(i);
                 if en.is_empty() {
-                    return None;
+                    return vec![];
                 }
                 if op.label == "get.acquire" && op.susp {
                     let woken = w.wakers[i].as_ref().map(|f| f.0.load(std::sync::atomic::Ordering::SeqCst)).unwrap_or(false);
-                    return if woken { Some((i, Outcome::Run)) } else { None };
+                    // variant 3: a waiting get() may also be abandoned
+                    return if woken {
+                        vec![(i, Outcome::Run)]
+                    } else if variant == 3 && en.contains(&Outcome::Cancel) {
+                        vec![(i, Outcome::Cancel)]
+                    } else {
+                        vec![]
+                    };
                 }
                 if en.contains(&Outcome::Run) {
-                    Some((i, Outcome::Run))
+                    vec![(i, Outcome::Run)]
                 } else if variant == 1 && op.label == "recycle" {
-                    Some((i, Outcome::Err))
+                    vec![(i, Outcome::Err)]
+                } else if variant == 3 && !op.susp && en.contains(&Outcome::Pending) {
+                    // variant 3: asynchronous callbacks suspend first ...
+                    vec![(i, Outcome::Pending)]
+                } else if variant == 3 && op.susp && en.contains(&Outcome::Cancel) {
+                    // ... and the suspended get() is then either resumed or abandoned
+                    vec![(i, Outcome::Ok), (i, Outcome::Cancel)]
                 } else {
-                    Some((i, Outcome::Ok))
+                    vec![(i, Outcome::Ok)]
                 }
             })
             .collect();
@@ -930,7 +945,8 @@ fn run_schedule(ops: &[ScOp], variant: usize, path: &[usize], budget: usize, res
         }
         let cur = last.and_then(|l| enabled.iter().find(|e| e.0 == l).copied());
         let options: Vec<Choice> = match cur {
-            Some((l, oc)) if left == 0 => vec![Choice::Step(l, oc)],
+            // no preemption left: the running operation goes on (with any of its own outcomes)
+            Some((l, _)) if left == 0 => enabled.iter().filter(|e| e.0 == l).map(|(i, oc)| Choice::Step(*i, *oc)).collect(),
             _ => all.clone(),
         };
         let d = taken.len();
@@ -938,8 +954,8 @@ fn run_schedule(ops: &[ScOp], variant: usize, path: &[usize], budget: usize, res
         taken.push(c);
         widths.push(options.len());
         let choice = options[c];
-        if let Some((l, oc)) = cur {
-            if choice != Choice::Step(l, oc) {
+        if let Some((l, _)) = cur {
+            if !matches!(choice, Choice::Step(i, _) if i == l) {
                 left = left.saturating_sub(1);
             }
         }
